@@ -236,9 +236,13 @@ func raceCanary(t *testing.T) string {
 	}
 	// The detector's shadow memory is lossy (it is flushed under pressure), so
 	// a single miss proves nothing; blindness caused by the harness would be
-	// systematic. Three attempts.
+	// systematic. Six attempts; both tasks stay alive until both accesses are
+	// made (the detector drops a report when it cannot restore the stack of
+	// the earlier access, which happens once that goroutine has ended and its
+	// slot has been reused - seen a few times in thousands of worker starts
+	// on a loaded machine).
 	p := raceLogPath()
-	for attempt := 0; attempt < 3; attempt++ {
+	for attempt := 0; attempt < 6; attempt++ {
 		mark := raceLogMark()
 		bubble(t, func() {
 			sim := simrt.New(simrt.NewChoices(int64(1 + attempt)))
@@ -248,8 +252,11 @@ func raceCanary(t *testing.T) string {
 				sim.GoNamed("canary", false, func() {
 					simrt.Yield(-50)
 					canaryTouch(1)
-					simrt.Yield(-50)
 					done++
+					for spin := 0; done < 2 && spin < 100; spin++ {
+						simrt.Yield(-50)
+					}
+					simrt.Yield(-50)
 				})
 			}
 			sim.OnIdle = func() bool { return true }
@@ -261,7 +268,7 @@ func raceCanary(t *testing.T) string {
 			return ""
 		}
 	}
-	return "race canary silent: the detector did not report a deliberately racy pair of accesses in three attempts (log " + p + ")"
+	return "race canary silent: the detector did not report a deliberately racy pair of accesses in six attempts (log " + p + ")"
 }
 
 var barrierVar int
